@@ -386,3 +386,37 @@ Theorem inlines_total_partial_final_emphasis_unreachable :
     site <> "inlines.rs:process_emphasis:unreachable"%string.
 Proof. exact InlinesTotal2Main.final_emphasis_unreachable_site. Qed.
 Print Assumptions inlines_total_partial_final_emphasis_unreachable.
+
+(* ---- 1g. which Panic sites the inline phase can answer (Proofs/InlinesTotal2Sites.v, InlinesTotal2Walk.v) ----
+   PROVED, every option set / oracle / reference map / memo switch: on right-trimmed content whose line endings
+   (LF, CR LF, bare CR) are covered by the line-offset table, with the reference budget within its maximum, a Panic
+   of parse_inlines is at one of the sites of `inlines_remaining_sites` (spelled out below); all the other sites of
+   Model/Inlines.v, the column arithmetic of make_inline / end_column and the sites of the autolink leaf functions
+   are UNREACHABLE (inlines_total_partial_unreachable lists them).  Invariants carried through every arm of
+   parse_inline, the main loop and both calls of process_emphasis:
+     CInv  column_offset = -(start of the current line) <= 0, that start <= pos, the byte in front of it is a line end
+           (so every column make_inline / end_column computes is >= 0: each arm makes its nodes at or after the
+           position it started from; the hard break reaches two bytes back, which are spaces, not the line end)
+     LInv  start_line <= line, and line - start_line + line endings still ahead < |line_offsets|
+           (handle_newline / the backslash break consume a line ending per line; adjust_node_newlines adds the LF
+           count of a slice that lies inside the consumed stretch; its index into the table is that count)
+     RInv  ref_size <= max_ref_size          FInv  (1f) stacked bytes are delimiter bytes
+   No premise on NUL bytes, UTF-8 validity or the first line: the sites that need them are among the remaining ones. *)
+From V Require Proofs.InlinesTotal2Sites Proofs.InlinesTotal2Walk.
+
+Definition inlines_remaining_sites : list String.string := InlinesTotal2Sites.remaining.
+
+Theorem inlines_total_partial_sites :
+  forall memo o u inp lo sl refmap maxref rs0 site,
+    Strings.rtrim_slice inp = inp -> line_endings inp < List.length lo -> (rs0 <= maxref)%N ->
+    parse_inlines memo o u inp lo sl refmap maxref rs0 = Panic site -> In site inlines_remaining_sites.
+Proof. exact InlinesTotal2Walk.inlines_total_partial_sites_lemma. Qed.
+Print Assumptions inlines_total_partial_sites.
+
+Theorem inlines_total_partial_unreachable :
+  forall memo o u inp lo sl refmap maxref rs0 site,
+    Strings.rtrim_slice inp = inp -> line_endings inp < List.length lo -> (rs0 <= maxref)%N ->
+    In site InlinesTotal2Walk.excluded_sites ->
+    parse_inlines memo o u inp lo sl refmap maxref rs0 <> Panic site.
+Proof. exact InlinesTotal2Walk.inlines_total_partial_unreachable_lemma. Qed.
+Print Assumptions inlines_total_partial_unreachable.
